@@ -77,6 +77,14 @@ impl Report {
             // state of the bound(...) resolution carried across iterations concerns the bounds properties only
             if w.starts_with("loop-carried bounds flag") && self.prop != "C03" && self.prop != "C04" { self.notes.push(format!("ignored for this property: {w}")); continue; }
             if w.starts_with("soft:") { self.notes.push(format!("not fatal: {w}")); continue; }
+            // a rule decided inside the evaluator, reported under its own name
+            if let Some(rest) = w.strip_prefix("rule:") {
+                let (rule, msg) = rest.split_once(':').unwrap_or(("ES-evaluator", rest));
+                let site = msg.rsplit(" at ").next().unwrap_or("-");
+                let text = msg.rsplit_once(" at ").map(|x| x.0).unwrap_or(msg);
+                self.fail(rule, role, site.rsplit('/').next().unwrap_or(site).split(':').next().unwrap_or("-"), text, site, json!({}));
+                continue;
+            }
             // key without the trailing " at file:line"
             let k = w.split(" at ").next().unwrap_or(w);
             let site = w.rsplit(" at ").next().unwrap_or("-");
